@@ -328,7 +328,7 @@ func c19Env(g *ref.Gen) (*bridge.Env, map[string]interface{}) {
 func runC19(c *run.Ctx) {
 	user := ref.UserFuns()
 	opt := ref.GenOpt{MaxDepth: 5, PFail: 0.08, PSugar: 0.8, PBoundary: 0.2, PGroup: 0.08, UserFuns: true}
-	n := c.Pick(3000, 80000)
+	n := c.Pick(3000, 250000)
 	for i := 0; i < n; i++ {
 		if !c.Mine(i) {
 			continue
